@@ -56,6 +56,17 @@ CLAIMED = {
         "indent only required to be spaces; hooks are thin re-exports.",
         "DESIGN.md section 4, C20",
     ),
+    "C03": (
+        "proptest random search over generated relation graphs x well-formed argv subsets; oracle = independent evaluation of every declared relation on the explicit (CommandLine/Env) ids of each successful parse, with the documented exemptions; shrinking",
+        "Generated commands carry random conflict / requires / requires_if / group / exclusive / required_if_eq / required_unless / override "
+        "graphs with defaults and env mixed in; argv supply random subsets of each level's arguments (predicate-mentioned values "
+        "preferred). Whenever the parse succeeds, every level of the subcommand chain is checked: no declared conflict between present "
+        "ids, exclusive alone, non-multiple groups with <= 1 member, every triggered requirement satisfied or excused by a documented "
+        "exemption; presence = explicit source only.",
+        "Exemptions are granted to every requirement kind (the library grants fewer, which only makes it stricter); overrides count as "
+        "conflicts for excusing, as in the library; no globals; levels below an allow_external_subcommands level are not judged.",
+        "DESIGN.md section 4, C03",
+    ),
     "C04": (
         "bounded enumeration of boundary strings x parser configurations + proptest random search, independent reference grammar/tables as oracle; model-based (stateful) testing of typed accessors against a map model",
         "Ranged integer parsers of every target width (value_parser!(T) and ::new(), chained .range() calls incl. empty and wider-than-T "
@@ -66,6 +77,16 @@ CLAIMED = {
         "Reference grammar = documented FromStr syntax; case-insensitivity compared by lower-casing on a restricted alphabet; debug "
         "assertions on.",
         "DESIGN.md section 4, C04",
+    ),
+    "C11": (
+        "proptest stateful testing: random histories of parse/build/render/clone steps on one Command value, differential oracle against a fresh definition per step, shrinking of the whole history",
+        "For generated trees and a pool of argv sharing argv[0], histories of up to 12 steps (ParseMut, Build twice with Debug "
+        "comparison, RenderHelp/LongHelp/Usage, CloneThenParse, DebugFormat) are executed on one value; each parse must agree with a "
+        "fresh definition parsing the same argv (matches ==, same error kind, identical message unless explicitly built before), "
+        "build is idempotent, and two fresh parses are identical.",
+        "All argv of a history share argv[0]; env is snapshotted at definition time; after an explicit build() only matches/kind "
+        "equality is demanded.",
+        "DESIGN.md section 4, C11",
     ),
     "C12": (
         "proptest random search over generated command trees with the full help surface, no-panic / bounded-padding / section-membership / hidden-absence oracles, metamorphic level markers for help dispatch, shrinking (tape + serialised case)",
